@@ -27,6 +27,7 @@ import EasyNet.Drv.Tls08
 import EasyNet.Drv.JRaw
 import EasyNet.Drv.Iso
 import EasyNet.Drv.TlsEof
+import EasyNet.Drv.GenericFr
 open EasyNet.Drv
 
 /-- one runner per model family; each returns `none` for model names it does not know -/
@@ -50,6 +51,7 @@ def runners : List (String → List String → List String → Option (List Stri
   , runJRaw
   , runIso
   , runTlsEof
+  , runGenericFr
   ]
 
 def dispatch (model : String) (cfg : List String) (ops : List String) : Option (List String) :=
